@@ -66,7 +66,8 @@ def stream_line(rng, s, fam, avg=1):
     if avg > 1:
         n = rng.randint(avg, 5 * avg + 1)
     d = dict(frames=n, w=w, h=h, type=ty, avg=avg, delay_ms=rng.choice([0, 0, 0, 2, 10]), trigger=0,
-             camfail=-1, stofail=-1, slow=rng.choice([0, 0, 1, 2, 4]), pace=rng.choice([0, 0, 1, 3]), zero=-1,
+             camfail=-1, stofail=-1, shapefail=-1, slow=rng.choice([0, 0, 1, 2, 4]), pace=rng.choice([0, 0, 1, 3]),
+             zero=rng.choice([-1, -1, -1, -1, rng.randint(0, max(0, n - 1))]),   # a frame call that comes back empty once
              camstop=rng.choice([0, 0, 0, 2, 6, 15, 40]))
     return d
 
@@ -112,7 +113,7 @@ def gen_fullring(rng, out, i):
 def gen_config(rng, fam, out, i):
     if fam == "fullring":
         return gen_fullring(rng, out, i)
-    ns = 2 if rng.random() < 0.25 else 1
+    ns = 2 if rng.random() < (0.5 if fam == "monitor" else 0.25) else 1
     avg = rng.choice([2, 2, 3]) if fam == "avg" else (rng.choice([1, 1, 1, 2, 3]) if fam in ("abort", "monitor") else 1)
     streams = [stream_line(rng, s, fam, avg) for s in range(ns)]
     fb = max(max(frame_bytes(d["w"], d["h"], d["type"]), acc_bytes(d["w"], d["h"]) if avg > 1 else 0) for d in streams)
@@ -154,6 +155,11 @@ def gen_config(rng, fam, out, i):
             prog += ["yield", str(rng.choice([0, 2, 10, 50])), "stop"]
     elif fam == "monitor":
         for a in range(nacq + 1):
+            if rng.random() < 0.4:
+                # the client also polls while nothing is running (before the first start, between acquisitions), any stream
+                for s in range(ns):
+                    if rng.random() < 0.7:
+                        prog += ["map", str(s), "unmap", str(s), "-1"]
             prog += ["start"]
             end = rng.choice(["stop", "stop", "abort"])
             for s in range(ns):
@@ -164,7 +170,8 @@ def gen_config(rng, fam, out, i):
                         prog += ["monitor", str(s), str(rng.choice([-1, -1, 1, 2])), str(rng.choice([0, 0, 2, 10]))]
             prog += ["yield", str(rng.choice([0, 2, 10, 50])), end]
             if rng.random() < 0.5:
-                prog += ["map", "0", "unmap", "0", "-1"]   # after stop/abort nothing of that acquisition may arrive
+                s = rng.randrange(ns)
+                prog += ["map", str(s), "unmap", str(s), "-1"]   # after stop/abort nothing of that acquisition may arrive
     elif fam == "abort":
         for d in streams:
             if rng.random() < 0.35:
@@ -207,8 +214,11 @@ def gen_config(rng, fam, out, i):
     elif fam == "fault":
         s = rng.randrange(ns)
         d = streams[s]
-        if rng.random() < 0.5:
-            d["camfail"] = rng.randint(0, d["frames"])
+        r = rng.random()
+        if r < 0.35:
+            d["camfail"] = rng.randint(0, d["frames"])        # get_frame fails
+        elif r < 0.5:
+            d["shapefail"] = rng.randint(0, d["frames"] - 1)  # get_shape fails (the source asks before every frame)
         else:
             d["stofail"] = rng.randint(0, max(0, d["frames"] - 1))
             d["slow"] = rng.choice([0, 1, 3, 6])
